@@ -47,6 +47,9 @@ def main():
     demo = os.path.join(demo_dir, "zz_seed_demo_test.go")
     shutil.copy(os.path.join(mdir, "demo_test.go"), demo)
     pkg = "./" + meta["demo_pkg_dir"].strip("/") + "/"
+    if meta["demo_pkg_dir"].strip("/").startswith("cmd/hidi"):
+        # cmd/hidi only links with a cgo-free stand-in for the alsa driver (never part of a patch)
+        shutil.copy(os.path.join(VERIF, "deps", "alsa", "alsa.go"), os.path.join(wt, "internal/pkg/midi/driver/alsa/alsa.go"))
     rc, out = sh("go test -vet=off -count=1 %s" % pkg, cwd=wt)
     verdict["demo_passes_clean"] = rc == 0
     rc, out = sh(["git", "apply", os.path.join(mdir, "patch.diff")], cwd=wt)
@@ -54,6 +57,7 @@ def main():
     rc, out = sh("go test -vet=off -count=1 %s" % pkg, cwd=wt)
     verdict["demo_fails_mutated"] = rc != 0
     os.remove(demo)
+    sh("git checkout -- internal/pkg/midi/driver/alsa/alsa.go", cwd=wt)
     bad = suite(wt)
     verdict["suite_unchanged"] = not bad
     sh("git checkout -- . && git clean -fdq", cwd=wt)
